@@ -400,6 +400,7 @@ def run(prop, tier, seed):
     if tier == 'quick' and len(cases) > 4500:
         rnd.shuffle(cases); cases = cases[:4500]
     for name, op in cases:
+        if not rep.mine((name, op)): continue
         try:
             msg, status = run_case(prop, name, [op])
         except Exception:
@@ -424,6 +425,7 @@ def run(prop, tier, seed):
                     for a1 in acts1:
                         for a2 in acts2:
                             hist = [(mi, n1) + a1, (mi, n2) + a2]
+                            if not rep.mine((name, tuple(hist))): continue
                             try: msg, status = run_case(prop, name, hist)
                             except Exception: msg, status = 'driver error: ' + traceback.format_exc()[-600:], 'fail'
                             rep.case((name, tuple(hist)), status != 'skip')
@@ -434,6 +436,7 @@ def run(prop, tier, seed):
         for _ in range(6000):
             (n1, o1), (n2, o2) = rnd.choice(singles), rnd.choice(singles)
             if n1 != n2: continue
+            if not rep.mine((n1, o1, o2)): continue
             msg, status = run_case(prop, n1, [o1, o2])
             rep.case((n1, o1, o2), status != 'skip')
             if msg: rep.fail(f'{type_name(n1, o2)}.{classify(o2, msg)}', msg, dict(prop=prop, doc=n1, ops=[o1, o2]))
